@@ -298,7 +298,8 @@ def branch_count(F, path):
     return n[0]
 
 
-def local_policy(F, root, events=(), keep=(), also_inline=(), public_events=False, max_branches=16, **kw):
+def local_policy(F, root, events=(), keep=(), also_inline=(), public_events=False, max_branches=16,
+                 keep_param_types=('wasmparser::NameSectionReader',), **kw):
     """The policy the rules use to look *through* helper functions: every function written in the same source
     file as `root` (helpers extracted next to it, private methods, closures) is inlined, whatever its name or
     visibility; calls matching `events` are kept opaque and recorded in the trace; calls matching `keep` are
@@ -316,6 +317,30 @@ def local_policy(F, root, events=(), keep=(), also_inline=(), public_events=Fals
     kp = [re.compile(x) for x in keep]
     ai = [re.compile(x) for x in also_inline]
 
+    if not hasattr(F, '_section_builders'):
+        # functions that create a whole wasm_encoder section value are emit steps of their own
+        F._section_builders = set()
+        for q, b in F.mir.items():
+            if '{closure' in q:
+                continue
+            for blk in b['blocks']:
+                t = blk['term']
+                if t.get('t') == 'Call':
+                    k = (t.get('func') or {}).get('k') or {}
+                    fn = k.get('resolved') or k.get('fn') or ''
+                    if re.search(r'wasm_encoder::\w*Section::new$', norm_path(fn)):
+                        F._section_builders.add(norm_path(q))
+
+    def typed_step(p):
+        """a function that consumes a whole section reader, or builds a whole section, is a step of its own, however
+        small it is"""
+        if norm_path(p) in F._section_builders and norm_path(p) != norm_path(root):
+            return True
+        h = F.hir.get(p)
+        if not h or not keep_param_types:
+            return False
+        return any(any(t in (prm.get('ty') or '') for t in keep_param_types) for prm in h.get('params', []))
+
     def is_public(p):
         f = F.fns.get(p)
         return bool(f) and f.get('vis') == 'Public' and f.get('kind') in ('Fn', 'AssocFn')
@@ -332,7 +357,7 @@ def local_policy(F, root, events=(), keep=(), also_inline=(), public_events=Fals
                     return False
                 if is_public(p) or file_of(F, p) != rf:
                     return True
-                return '{closure' not in p and branch_count(F, p) > max_branches
+                return '{closure' not in p and (branch_count(F, p) > max_branches or typed_step(p))
             return not (p.startswith('std::') or p.startswith('log::') or p.startswith('anyhow::'))
         return False
 
@@ -345,7 +370,7 @@ def local_policy(F, root, events=(), keep=(), also_inline=(), public_events=Fals
         if not (p in F.hir and file_of(F, p) == rf):
             return False
         # a helper is glue; a function with a large decision structure of its own is a step, not glue
-        return '{closure' in p or branch_count(F, p) <= max_branches
+        return '{closure' in p or (branch_count(F, p) <= max_branches and not typed_step(p))
     return Policy(effects=is_event, inline=inline, **kw)
 
 
